@@ -53,7 +53,7 @@ def free_port():
 
 
 class Pool:
-    def __init__(self, repo_src, cores=2):
+    def __init__(self, repo_src, cores=2, tick=None):
         self.dir = tempfile.mkdtemp(prefix=f"gwf-mc-sock-p{os.getpid()}-", dir="/dev/shm")
         os.makedirs(os.path.join(self.dir, ".gwf", "logs"))
         self.port = free_port()
@@ -61,6 +61,8 @@ class Pool:
         self.proc = subprocess.Popen(["/venv/bin/python", "-c", code], stdin=subprocess.DEVNULL, stdout=subprocess.DEVNULL, stderr=subprocess.DEVNULL, start_new_session=True)
         t0 = time.time()
         while time.time() - t0 < 90:
+            if tick:
+                tick()
             try:
                 socket.create_connection(("127.0.0.1", self.port), timeout=0.3).close()
                 return
@@ -90,7 +92,7 @@ def client(port, timeout=15.0):
     return Client.from_socket(s)
 
 
-def run_sequence(pool, seq, ending, n):
+def run_sequence(pool, seq, ending, n, tick=None):
     """Returns a list of problems."""
     problems = []
     wd = pool.dir
@@ -138,6 +140,8 @@ def run_sequence(pool, seq, ending, n):
     final = ("COMPLETED", "FAILED", "CANCELLED", "KILLED")
     st = {}
     while time.time() - t0 < 25:
+        if tick:
+            tick()
         try:
             st = {k: v.name for k, v in nn.status().items()}
         except Exception as e:
@@ -168,11 +172,12 @@ def run_sequence(pool, seq, ending, n):
 def socket_batch(acc, batch):
     from mc.runner import REPO
 
-    pool = Pool(os.path.join(REPO, "src"))
+    pool = Pool(os.path.join(REPO, "src"), tick=acc.tick)
     prior = []  # what this pool has been through since it was started: part of the case (a pool is not reset between sequences)
     try:
         for n, (seq, ending) in enumerate(batch):
-            problems = run_sequence(pool, seq, ending, n)
+            acc.tick()
+            problems = run_sequence(pool, seq, ending, n, tick=acc.tick)
             case = dict(kind="socket", seq=list(seq), ending=ending, prior=[[list(s_), e_] for s_, e_ in prior])
             prior.append((seq, ending))
             acc.case(key=json.dumps(case), outcome=f"socket ok={not problems}", sample=case)
@@ -183,7 +188,7 @@ def socket_batch(acc, batch):
                               msg=f"[real-socket tier] misbehaving client sends {list(seq)} then {ending}: {problems[:3]}")
                 # a wedged pool would fail every later sequence too: start a fresh one so that each report stands for itself
                 pool.stop()
-                pool = Pool(os.path.join(REPO, "src"))
+                pool = Pool(os.path.join(REPO, "src"), tick=acc.tick)
                 prior = []
     finally:
         pool.stop()
